@@ -181,22 +181,31 @@ func FloatToken(f float64) string {
 
 // FromGo converts a concrete value to tagged form (placeholders are NOT re-substituted;
 // comparison is done on the Go side after ToGo, or on canonical strings of FromGo(ToGo(x))).
-func FromGo(v interface{}) *TV {
+func FromGo(v interface{}) *TV { return fromGo(v, 0) }
+
+// MaxDepth bounds the walk so that a cyclic value (a defect some operations can create)
+// raises a recoverable panic instead of overflowing the stack.
+const MaxDepth = 500
+
+func fromGo(v interface{}, d int) *TV {
+	if d > MaxDepth {
+		panic("tagged: value deeper than MaxDepth (cyclic?)")
+	}
 	switch x := v.(type) {
 	case nil:
 		return &TV{T: "n", V: "nil"}
 	case mxj.Map:
-		return FromGo(map[string]interface{}(x))
+		return fromGo(map[string]interface{}(x), d)
 	case map[string]interface{}:
 		t := &TV{T: "m", KV: make(map[string]*TV, len(x))}
 		for k, e := range x {
-			t.KV[k] = FromGo(e)
+			t.KV[k] = fromGo(e, d+1)
 		}
 		return t
 	case []interface{}:
 		t := &TV{T: "l", It: make([]*TV, len(x))}
 		for i, e := range x {
-			t.It[i] = FromGo(e)
+			t.It[i] = fromGo(e, d+1)
 		}
 		return t
 	case string:
@@ -219,13 +228,13 @@ func FromGo(v interface{}) *TV {
 	case []map[string]interface{}:
 		t := &TV{T: "l", It: make([]*TV, len(x))}
 		for i, e := range x {
-			t.It[i] = FromGo(e)
+			t.It[i] = fromGo(e, d+1)
 		}
 		return t
 	case []string:
 		t := &TV{T: "l", It: make([]*TV, len(x))}
 		for i, e := range x {
-			t.It[i] = FromGo(e)
+			t.It[i] = fromGo(e, d+1)
 		}
 		return t
 	}
@@ -345,4 +354,30 @@ func DeepCopyGo(v interface{}) interface{} {
 		return l
 	}
 	return v
+}
+
+// CanonUnordered renders a value with every list sorted (for results whose list order
+// depends on Go's map iteration order, e.g. values collected through a wildcard).
+func (t *TV) CanonUnordered() string {
+	switch t.T {
+	case "m":
+		keys := make([]string, 0, len(t.KV))
+		for k := range t.KV {
+			keys = append(keys, k)
+		}
+		sort.Strings(keys)
+		parts := make([]string, len(keys))
+		for i, k := range keys {
+			parts[i] = strconv.Quote(k) + ":" + t.KV[k].CanonUnordered()
+		}
+		return "{" + strings.Join(parts, ",") + "}"
+	case "l":
+		parts := make([]string, len(t.It))
+		for i, e := range t.It {
+			parts[i] = e.CanonUnordered()
+		}
+		sort.Strings(parts)
+		return "[" + strings.Join(parts, ",") + "]"
+	}
+	return t.T + ":" + strconv.Quote(t.V)
 }
